@@ -305,6 +305,11 @@ pub fn check_unit(
         c8(ctx, "loss_monotone", e.energy_loss.value >= pre.edrv.energy_loss.value - tolp(e.energy_loss.value), "edrv energy_loss decreased".into(), json!({}));
         c8(ctx, "dyn_brake_only_when_braking", e.pwr_mech_dyn_brake.value >= 0.0 && (si.demand < 0.0 || e.pwr_mech_dyn_brake.value == 0.0),
             format!("dyn brake {} with demand {}", e.pwr_mech_dyn_brake.value, si.demand), json!({}));
+        // the electrical side of the same quantity (what the braking grid dissipates)
+        c8(ctx, "dyn_brake_only_when_braking", e.pwr_elec_dyn_brake.value >= 0.0 && (si.demand < 0.0 || e.pwr_elec_dyn_brake.value == 0.0),
+            format!("electrical dyn brake power {} with demand {}", e.pwr_elec_dyn_brake.value, si.demand), json!({}));
+        c8(ctx, "dyn_brake_elec_le_mech", e.pwr_elec_dyn_brake.value <= e.pwr_mech_dyn_brake.value * (1.0 + 1e-9) + 1e-9,
+            format!("electrical dyn brake power {} exceeds the mechanical power braked {}", e.pwr_elec_dyn_brake.value, e.pwr_mech_dyn_brake.value), json!({}));
     }
 
     // ---------------- C09: limits on accepted steps
